@@ -262,7 +262,6 @@ def vals(c):
     return d
 
 
-UM_TIMING_OK = ('atax', 'bicg', 'fft', 'floydwarshall', 'nbody', 'stencil2d')
 GLOBAL_OFFSET_WORKLOADS = ('fir', 'relu', 'aes', 'kmeans', 'bitonicsort', 'simpleconvolution')
 
 
@@ -288,19 +287,17 @@ KNOWN = [
               'work-item ID: every GPU computes the first part and the rest stays untouched (fir -length=64 -gpus=1,2 -arch=cdna3: '
               '"At position 32, expected 2600, but get 0"); gcn3 and -unified-gpus pass; atax, bicg, matrixtranspose, matrixmultiplication, '
               'nbody, pagerank, spmv, stencil2d, fft, floydwarshall and vectoradd (pointer offsets) pass'),
-    dict(id='unified-memory-timing-multi-gpu-hang', witness='relu -length=64 -gpus=1,2 -use-unified-memory -timing', timeout=30, hang=True,
-         match=lambda c: c['timing'] and c['um'] and c['ngpu'] >= 2 and c['w'] not in UM_TIMING_OK,
-         text='timing platform, >= 2 GPUs, -use-unified-memory (classes the acceptance matrix lists): after the repair of the page-migration '
-              'panic (5048ec2f) atax, bicg, fft, floydwarshall, nbody and stencil2d pass on every GPU set, but fir, aes, kmeans, '
-              'matrixmultiplication, matrixtranspose, relu and simpleconvolution deadlock with discrete GPU sets (-gpus=1,2 / 1,2,3,4: < 1 s CPU '
-              'in 40 s; matrixmultiplication -gpus=1,2,3,4 panics "slice bounds out of range"), and pagerank deadlocks with '
-              '-unified-gpus=1,2 for 65 and 100 nodes'),
-    dict(id='simpleconvolution-discrete-multi-gpu-remainder', witness='simpleconvolution -width=64 -height=64 -mask-size=1 -gpus=1,2,3', timeout=60,
-         match=lambda c: c['w'] == 'simpleconvolution' and discrete(c) and
-         ((vals(c).get('width', 254) + vals(c).get('mask-size', 3) - 1) * (vals(c).get('height', 254) + vals(c).get('mask-size', 3) - 1)) % c['ngpu'] != 0,
-         text='simpleconvolution with N discrete GPUs launches (paddedWidth*paddedHeight)/N work-items per GPU: when the padded image size is '
-              'not a multiple of N the last elements are never computed (-width=64 -height=64 -mask-size=1 -gpus=1,2,3: mismatch at position '
-              '63, 63); same defect class as discrete-multi-gpu-remainder; repaired by fix commit 41db4310 on branch work4-c01'),
+    dict(id='unified-memory-timing-multi-gpu-hang', witness='fir -length=64 -gpus=1,2 -use-unified-memory -timing', timeout=30, hang=True,
+         match=lambda c: c['timing'] and c['um'] and c['ngpu'] >= 2 and (
+             (discrete(c) and (c['ngpu'] >= 3 or c['w'] in ('fir', 'aes') or (c['w'] == 'matrixtranspose' and vals(c).get('width', 256) > 64)))
+             or (c['unified'] and c['w'] == 'pagerank')),
+         text='timing platform, discrete GPU set, -use-unified-memory (classes the acceptance matrix lists): after the repairs 5048ec2f '
+              '(page-migration panic) and 039c00e9 (TLB shootdown restarts the reorder buffers) a second, akita-internal circular wait (TLB '
+              'flush waits for its MSHR; head-of-line blocking in the MMU migration queue) still deadlocks fir and aes with -gpus=1,2 and '
+              'every workload with >= 3 discrete GPUs; also matrixtranspose -width>=128 -gpus=1,2 (width 64 passes) and pagerank -node=65 '
+              '-sparsity=0.5 -iterations=1 -unified-gpus=1,2; relu, kmeans, matrixmultiplication, simpleconvolution -gpus=1,2 pass'),
+    dict(id='unified-memory-timing-multi-gpu-hang', witness='relu -length=64 -gpus=1,2,3 -use-unified-memory -timing', timeout=30, hang=True,
+         match=lambda c: False, text='same class, >= 3 discrete GPUs witness'),
     dict(id='conv2d-backward-stride-or-non-square', witness='conv2d -enable-backward=true -stride-x=2', timeout=60,
          match=lambda c: c['w'] == 'conv2d' and vals(c).get('enable-backward') == 'true' and
          (vals(c).get('stride-x', 1) > 1 or vals(c).get('stride-y', 1) > 1 or vals(c).get('H', 28) != vals(c).get('W', 28)),
@@ -345,9 +342,6 @@ KNOWN = [
          text='stencil2d with a row count other than 64 (18, 34, 50, 66, 130) fails -verify at the last interior/boundary row '
               '("not match at (65,1), expected 1.0 to equal 0.5"): grid rows = (row-2)/16 truncates and the reference disagrees'),
 ]
-
-TEARDOWN_SIG = 'assignment to entry in nil map'
-
 
 def cfg_cmd(c):
     a = [c['w']] + c['size'].split()
@@ -518,6 +512,12 @@ def core_matrix():
         mk('im2col', '-N=2 -C=3 -H=11 -W=11 -kernel-height=1 -kernel-width=5 -stride-x=1 -stride-y=3 -dilate-x=2 -dilate-y=1 -pad-y=2'),
         mk('floydwarshall', '-node=16 -iter=5'), mk('stencil2d', '-row=64 -col=128 -iter=5'), mk('spmv', '-dim=1024 -sparsity=0.005'),
     ]
+    core += [  # repaired by 039c00e9 (unified memory, timing, 2 discrete GPUs) and d210735a (simpleconvolution remainder)
+        mk('relu', '-length=64', timing=True, gpus='1,2', um=True), mk('kmeans', '-points=100 -features=8 -clusters=3 -max-iter=2', timing=True, gpus='1,2', um=True),
+        mk('matrixmultiplication', '-x=32 -y=32 -z=32', timing=True, gpus='1,2', um=True), mk('matrixtranspose', '-width=64', timing=True, gpus='1,2', um=True),
+        mk('simpleconvolution', '-width=30 -height=30', timing=True, gpus='1,2', um=True), mk('pagerank', '-node=65 -sparsity=0.5 -iterations=1', timing=True, gpus='1,2', um=True),
+        mk('simpleconvolution', '-width=64 -height=64 -mask-size=1', gpus='1,2,3'),
+    ]
     bad = [cfg_cmd(c) for c in core if known_class(c)]
     assert not bad, 'core configuration inside a known-finding class: %s' % bad
     return core
@@ -576,12 +576,6 @@ def reason(r):
     lines = [l for l in r['out'].split('\n') if l.strip() and not l.startswith(('\t', 'goroutine', 'runtime', 'github.com', 'created by', 'main.'))]
     key = [l for l in lines if any(k in l for k in ('anic', 'ismatch', 'rror', 'not match', 'expected', 'atal'))]
     return (key[0] if key else (lines[-1] if lines else 'exit status %d' % r['rc']))[:300]
-
-
-def teardown_race(r):
-    """exit status 1 from the driver's engine goroutine after the benchmark had
-    already verified its result (tracing torn down while the engine still ticks)"""
-    return r['rc'] != 124 and TEARDOWN_SIG in r['out']
 
 
 # ------------------------------------------------------------------ main
@@ -757,10 +751,9 @@ def main(argv):
             runs.append(r)
             if r['ok']:
                 continue
-            later_ok = any(t['ok'] for t in tries[1:])
-            if later_ok and (teardown_race(r) or r['rc'] == 124):
-                flaky.append(r)
-            elif all(teardown_race(t) or t['ok'] for t in tries):
+            # generic flake rule: only a run that did not terminate once and passes on both re-runs is tolerated
+            # (and reported); every other failure, also one that a re-run does not reproduce, is a violation
+            if r['rc'] == 124 and len(tries) > 1 and all(t['ok'] for t in tries[1:]):
                 flaky.append(r)
             else:
                 fails.append(tries)
@@ -768,14 +761,8 @@ def main(argv):
         rep.known_finding('%s: `%s` -> %s | %s' % (k['id'], k['witness'], reason(r), k['text']), key=k['id'])
     for k in known_gone:
         print('# note: known finding %s no longer reproduces (`%s` passes)' % (k['id'], k['witness']))
-    n_td = sum(1 for r in flaky if teardown_race(r))
-    if n_td:
-        rep.known_finding('teardown-race: %d run(s) printed their verification result and then exited 1 with "%s" (tracing torn down by '
-                          'Runner.Run while the driver engine goroutine still ticks; passes when re-run) e.g. `%s`'
-                          % (n_td, TEARDOWN_SIG, [r for r in flaky if teardown_race(r)][0]['cmd']), key='teardown-race')
     for r in flaky:
-        if not teardown_race(r):
-            print('# note: `%s` did not terminate once and passed when re-run (driver drain race, see C12)' % r['cmd'])
+        print('# note: `%s` did not terminate once and passed on both re-runs' % r['cmd'])
     if not replay_obj:
         rep.obligation('validation matrix: %d configurations pass -verify (re-run on failure)' % len(runs), not fails)
 
